@@ -2078,3 +2078,477 @@ Proof.
       eapply emits_not_kind in He; eauto; reflexivity. }
     destruct (arun AFresh _); simpl in *; auto; discriminate.
 Qed.
+
+(* ================================================================== the error that reaches the caller *)
+Definition hook_phase (k : ekind) : option phase :=
+  match k with HS => Some PStart | HE => Some PEval | HP => Some PStop | _ => None end.
+
+(* the user hook entered by this event throws *)
+Definition is_fired (pl : plan) (e : event) : bool :=
+  match hook_phase (e_kind e) with Some ph => pl (e_path e) ph (e_k e) | None => false end.
+
+Definition fired (pl : plan) (ev : list event) : list event := filter (is_fired pl) ev.
+
+Lemma fired_app pl a b : fired pl (a ++ b) = fired pl a ++ fired pl b.
+Proof. apply filter_app. Qed.
+
+Lemma fired_obs pl k t p n : hook_phase k = None -> fired pl [Ev k t p n] = [].
+Proof. unfold fired, is_fired. simpl. intros ->. reflexivity. Qed.
+
+Lemma fired_opt {X} pl (o : option X) k t p n : hook_phase k = None -> fired pl (opt_ev o (Ev k t p n)) = [].
+Proof. destruct o; simpl; auto. apply fired_obs. Qed.
+
+(* what a failure returned by an operation on (a node / a graph at) p in phase ph looks like:
+   it is the FIRST fault that fired during the operation.  [lg]: the operation may also report
+   "graph must be started before evaluation" (excluded separately) *)
+Definition FE (pl : plan) (lg : bool) (ph : phase) (p : path) (ev : list event) (f : option failure) : Prop :=
+  match f with
+  | None => fired pl ev = []
+  | Some fl =>
+      (lg = true /\ f_exn fl = XLogic /\ fired pl ev = []) \/
+      exists p' k e0 rest, f_exn fl = XFault p' ph k /\ prefix p p' /\ fired pl ev = e0 :: rest /\
+                           e_path e0 = p' /\ e_k e0 = k /\ hook_phase (e_kind e0) = Some ph
+  end.
+
+Lemma FE_weaken pl lg ph p q ev f : prefix q p -> FE pl lg ph p ev f -> FE pl lg ph q ev f.
+Proof.
+  intros Hp. unfold FE. destruct f as [fl|]; auto. intros [H|(p' & k & e0 & rest & H1 & H2 & H3)]; auto.
+  right. exists p', k, e0, rest. split; auto. split; auto. eapply prefix_trans; eauto.
+Qed.
+
+Lemma FE_annot pl lg ph p ev root i ph' f : FE pl lg ph p ev f -> FE pl lg ph p ev (option_map (annotate root i ph') f).
+Proof. destruct f as [fl|]; simpl; auto. unfold annotate. destruct root; auto. Qed.
+
+Ltac fired_simpl :=
+  repeat (rewrite ?fired_app, ?fired_obs, ?fired_opt by reflexivity; simpl).
+
+Lemma stop_loop_FE pl stop1 root gp t : forall l i l' ev f,
+  Forall (fun c => forall j c' e g, stop1 (gp ++ [j]) t c = (c', e, g) -> FE pl false PStop (gp ++ [j]) e g) l ->
+  stop_loop stop1 root gp t i l = (l', ev, f) -> FE pl false PStop gp ev f.
+Proof.
+  induction l as [|c r IH]; intros i l' ev f Hs Hrun; simpl in Hrun.
+  - inversion Hrun; subst. reflexivity.
+  - inversion Hs as [|? ? Hc Hr]; subst.
+    destruct (stop_loop stop1 root gp t (S i) r) as [[r' ev1] f1] eqn:E1.
+    destruct (stop1 (gp ++ [i]) t c) as [[c' ev2] f2] eqn:E2.
+    inversion Hrun; subst; clear Hrun.
+    pose proof (IH _ _ _ _ Hr E1) as F1.
+    pose proof (FE_weaken _ _ _ _ gp _ _ (prefix_app gp [i]) (Hc _ _ _ _ E2)) as F2.
+    apply (FE_annot _ _ _ _ _ root i PStop) in F2.
+    destruct f1 as [fl1|]; simpl.
+    + destruct F1 as [[H1 _]|(p' & k & e0 & rest & H1 & H2 & H3 & H4)]; [discriminate|].
+      right. exists p', k, e0, (rest ++ fired pl ev2). split; auto. split; auto. split; auto.
+      fired_simpl. rewrite H3. fired_simpl. rewrite app_nil_r. reflexivity.
+    + unfold FE in F1. destruct (option_map (annotate root i PStop) f2) as [fl2|] eqn:E.
+      * destruct F2 as [[H1 _]|(p' & k & e0 & rest & H1 & H2 & H3 & H4)]; [discriminate|].
+        right. exists p', k, e0, rest. split; auto. split; auto. split; auto.
+        fired_simpl. rewrite F1, H3. simpl. rewrite app_nil_r. reflexivity.
+      * unfold FE in F2. fired_simpl. rewrite F1, F2. reflexivity.
+Qed.
+
+Lemma fired_hook pl k t p n ph : hook_phase k = Some ph -> fired pl [Ev k t p n] = if pl p ph n then [Ev k t p n] else [].
+Proof. unfold fired, is_fired. simpl. intros ->. destruct (pl p ph n); reflexivity. Qed.
+
+Lemma stop_node_FE pl : forall n p t c' ev f, stop_node pl p t n = (c', ev, f) -> FE pl false PStop p ev f.
+Proof.
+  induction n as [per st nx cs ce cp|st gs gt ch IH] using node_ind'; intros p t c' ev f Hrun; simpl in Hrun.
+  - destruct st; inversion Hrun; subst; clear Hrun; [|reflexivity].
+    unfold FE. rewrite (fired_hook pl HP t p cp PStop eq_refl). destruct (pl p PStop cp); auto.
+    right. exists p, cp, (Ev HP t p cp), []. repeat split; auto. apply prefix_refl.
+  - destruct st; [|inversion Hrun; subst; reflexivity].
+    unfold stop_graph_with in Hrun. destruct gs; [|inversion Hrun; subst; reflexivity].
+    destruct (stop_loop (fun q u c => stop_node pl q u c) false p gt 0 ch) as [[l' ev1] f1] eqn:E1.
+    inversion Hrun; subst; clear Hrun.
+    assert (F1 : FE pl false PStop p ev1 f).
+    { eapply stop_loop_FE; [|exact E1]. eapply Forall_impl; [|exact IH]. intros c Hc j c0 e g. apply Hc. }
+    unfold FE in *. destruct f as [fl|].
+    + destruct F1 as [[H1 _]|(p' & k & e0 & rest & H1 & H2 & H3 & H4)]; [discriminate|].
+      right. exists p', k, e0, rest. split; auto. split; auto. split; auto.
+      fired_simpl. rewrite H3. rewrite app_nil_r. reflexivity.
+    + fired_simpl. rewrite F1. reflexivity.
+Qed.
+
+Lemma start_loop_FE pl start1 stop1 root gp t : forall l i l' ev fr,
+  Forall (fun c => forall j c' e g, start1 (gp ++ [j]) t c = (c', e, g) -> FE pl false PStart (gp ++ [j]) e g) l ->
+  start_loop start1 stop1 root gp t i l = (l', ev, fr) -> FE pl false PStart gp ev (option_map fst fr).
+Proof.
+  induction l as [|c r IH]; intros i l' ev fr Hs Hrun; simpl in Hrun.
+  - inversion Hrun; subst. reflexivity.
+  - inversion Hs as [|? ? Hc Hr]; subst.
+    destruct (start1 (gp ++ [i]) t c) as [[c1 ev1] f1] eqn:E1.
+    pose proof (FE_weaken _ _ _ _ gp _ _ (prefix_app gp [i]) (Hc _ _ _ _ E1)) as F1.
+    destruct f1 as [f1|].
+    + inversion Hrun; subst; clear Hrun. simpl.
+      apply (FE_annot _ _ _ _ _ root i PStart) in F1. simpl in F1.
+      destruct F1 as [[H1 _]|(p' & k & e0 & rest & H1 & H2 & H3 & H4)]; [discriminate|].
+      right. exists p', k, e0, rest. split; auto. split; auto. split; auto.
+      fired_simpl. rewrite H3. rewrite app_nil_r. reflexivity.
+    + unfold FE in F1.
+      destruct (start_loop start1 stop1 root gp t (S i) r) as [[r' ev2] f2] eqn:E2.
+      pose proof (IH _ _ _ _ Hr E2) as F2.
+      destruct f2 as [[f2 ab]|].
+      * simpl in F2. destruct F2 as [[H1 _]|(p' & k & e0 & rest & H1 & H2 & H3 & H4)]; [discriminate|].
+        destruct ab.
+        -- inversion Hrun; subst; clear Hrun. simpl. right. exists p', k, e0, rest.
+           split; auto. split; auto. split; auto. fired_simpl. rewrite F1, H3. reflexivity.
+        -- destruct (stop1 (gp ++ [i]) t c1) as [[c2 ev3] f3] eqn:E3.
+           inversion Hrun; subst; clear Hrun. simpl. right. exists p', k, e0, (rest ++ fired pl ev3).
+           split; auto. split; auto. split; auto. fired_simpl. rewrite F1, H3. simpl.
+           rewrite app_nil_r. reflexivity.
+      * inversion Hrun; subst; clear Hrun. simpl in *. fired_simpl. rewrite F1, F2. reflexivity.
+Qed.
+
+Lemma start_node_FE pl : forall n p t c' ev f, start_node pl p t n = (c', ev, f) -> FE pl false PStart p ev f.
+Proof.
+  induction n as [per st nx cs ce cp|st gs gt ch IH] using node_ind'; intros p t c' ev f Hrun; simpl in Hrun.
+  - destruct st; [inversion Hrun; subst; reflexivity|].
+    destruct (pl p PStart cs) eqn:Ep; inversion Hrun; subst; clear Hrun; unfold FE;
+      rewrite (fired_hook pl HS t p cs PStart eq_refl), Ep; auto.
+    right. exists p, cs, (Ev HS t p cs), []. repeat split; auto. apply prefix_refl.
+  - destruct st; [inversion Hrun; subst; reflexivity|].
+    unfold start_graph_with in Hrun. destruct gs; [inversion Hrun; subst; reflexivity|].
+    destruct (start_loop (fun q u c => start_node pl q u c) (stop_node pl) false p t 0 ch) as [[l' ev1] fr] eqn:E1.
+    assert (F1 : FE pl false PStart p ev1 (option_map fst fr)).
+    { eapply start_loop_FE; [|exact E1]. eapply Forall_impl; [|exact IH]. intros c Hc j c0 e g. apply Hc. }
+    destruct fr as [[f0 ab]|]; inversion Hrun; subst; clear Hrun; simpl in F1; unfold FE.
+    + destruct F1 as [[H1 _]|(p' & k & e0 & rest & H1 & H2 & H3 & H4)]; [discriminate|].
+      right. exists p', k, e0, rest. split; auto. split; auto. split; auto.
+      fired_simpl. rewrite H3. rewrite app_nil_r. reflexivity.
+    + fired_simpl. rewrite F1. reflexivity.
+Qed.
+
+Lemma eval_loop_FE pl eval1 due1 root gp t : forall l i l' ev f,
+  Forall (fun c => forall j c' e g, eval1 (gp ++ [j]) t c = (c', e, g) -> FE pl true PEval (gp ++ [j]) e g) l ->
+  eval_loop eval1 due1 root gp t i l = (l', ev, f) -> FE pl true PEval gp ev f.
+Proof.
+  induction l as [|c r IH]; intros i l' ev f Hs Hrun; simpl in Hrun.
+  - inversion Hrun; subst. reflexivity.
+  - inversion Hs as [|? ? Hc Hr]; subst. destruct (due1 t c).
+    + destruct (eval1 (gp ++ [i]) t c) as [[c1 ev1] f1] eqn:E1.
+      pose proof (FE_weaken _ _ _ _ gp _ _ (prefix_app gp [i]) (Hc _ _ _ _ E1)) as F1.
+      destruct f1 as [f1|].
+      * inversion Hrun; subst; clear Hrun.
+        apply (FE_annot _ _ _ _ _ root i PEval) in F1. simpl in F1. unfold FE.
+        destruct F1 as [(H0 & H1 & H2)|(p' & k & e0 & rest & H1 & H2 & H3 & H4)].
+        -- left. split; auto. split; auto. fired_simpl. rewrite H2. reflexivity.
+        -- right. exists p', k, e0, rest. split; auto. split; auto. split; auto.
+           fired_simpl. rewrite H3. rewrite app_nil_r. reflexivity.
+      * destruct (eval_loop eval1 due1 root gp t (S i) r) as [[r' ev2] f2] eqn:E2.
+        inversion Hrun; subst; clear Hrun. pose proof (IH _ _ _ _ Hr E2) as F2. unfold FE in *.
+        destruct f as [fl|].
+        -- destruct F2 as [(H0 & H1 & H2)|(p' & k & e0 & rest & H1 & H2 & H3 & H4)].
+           ++ left. split; auto. split; auto. fired_simpl. rewrite F1, H2. reflexivity.
+           ++ right. exists p', k, e0, rest. split; auto. split; auto. split; auto.
+              fired_simpl. rewrite F1, H3. reflexivity.
+        -- fired_simpl. rewrite F1, F2. reflexivity.
+    + destruct (eval_loop eval1 due1 root gp t (S i) r) as [[r' ev2] f2] eqn:E2.
+      inversion Hrun; subst; clear Hrun. eapply IH; eauto.
+Qed.
+
+Lemma eval_node_FE pl : forall n p t c' ev f, eval_node pl p t n = (c', ev, f) -> FE pl true PEval p ev f.
+Proof.
+  induction n as [per st nx cs ce cp|st gs gt ch IH] using node_ind'; intros p t c' ev f Hrun; simpl in Hrun.
+  - destruct st; [|inversion Hrun; subst; reflexivity].
+    destruct (pl p PEval ce) eqn:Ep; inversion Hrun; subst; clear Hrun; unfold FE;
+      rewrite (fired_hook pl HE t p ce PEval eq_refl), Ep; auto.
+    right. exists p, ce, (Ev HE t p ce), []. repeat split; auto. apply prefix_refl.
+  - destruct st; [|inversion Hrun; subst; reflexivity].
+    unfold eval_graph_with in Hrun. destruct gs.
+    + destruct (eval_loop (fun q u c => eval_node pl q u c) due false p t 0 ch) as [[l' ev1] f1] eqn:E1.
+      assert (F1 : FE pl true PEval p ev1 f1).
+      { eapply eval_loop_FE; [|exact E1]. eapply Forall_impl; [|exact IH]. intros c Hc j c0 e g. apply Hc. }
+      inversion Hrun; subst; clear Hrun. unfold FE in *. destruct f as [fl|].
+      * destruct F1 as [(H0 & H1 & H2)|(p' & k & e0 & rest & H1 & H2 & H3 & H4)].
+        -- left. split; auto. split; auto. fired_simpl. rewrite H2. reflexivity.
+        -- right. exists p', k, e0, rest. split; auto. split; auto. split; auto.
+           fired_simpl. rewrite H3. rewrite app_nil_r. reflexivity.
+      * fired_simpl. rewrite F1. reflexivity.
+    + inversion Hrun; subst. left. auto.
+Qed.
+
+(* the annotation added at the root boundary names the root node the fault lies under *)
+Definition NP (op : path -> Z -> node -> nres) (t : Z) (c : node) : Prop :=
+  forall j c' e gl, op [j] t c = (c', e, Some gl) ->
+  forall p' ph k, f_exn gl = XFault p' ph k -> prefix [j] p'.
+
+Lemma FE_NP pl lg ph (op : path -> Z -> node -> nres) t c :
+  (forall p c' e g, op p t c = (c', e, g) -> FE pl lg ph p e g) -> NP op t c.
+Proof.
+  intros H j c' e gl Hop p' ph' k Hx. specialize (H _ _ _ _ Hop). simpl in H.
+  destruct H as [(_ & H & _)|(p'' & k' & e0 & rest & H1 & H2 & _)]; [congruence|].
+  rewrite H1 in Hx. inversion Hx; subst. exact H2.
+Qed.
+
+Definition note_names (fl : failure) (ph : phase) : Prop :=
+  exists j, f_note fl = Some (j, ph) /\ forall p' ph' k, f_exn fl = XFault p' ph' k -> prefix [j] p'.
+
+Lemma stop_loop_note stop1 t : forall l i l' ev fl,
+  Forall (NP stop1 t) l -> stop_loop stop1 true [] t i l = (l', ev, Some fl) -> note_names fl PStop.
+Proof.
+  induction l as [|c r IH]; intros i l' ev fl Hs Hrun; simpl in Hrun; [discriminate|].
+  inversion Hs as [|? ? Hc Hr]; subst.
+  destruct (stop_loop stop1 true [] t (S i) r) as [[r' ev1] f1] eqn:E1.
+  destruct (stop1 [i] t c) as [[c' ev2] f2] eqn:E2.
+  injection Hrun as Hl Hev Hf. destruct f1 as [fl1|]; simpl in Hf.
+  - inversion Hf; subst. eapply IH; eauto.
+  - destruct f2 as [g|]; simpl in Hf; [|discriminate]. inversion Hf; subst. exists i. split; auto.
+    simpl. intros p' ph' k Hx. eapply Hc; eauto.
+Qed.
+
+Lemma start_loop_note start1 stop1 t : forall l i l' ev fl ab,
+  Forall (NP start1 t) l -> start_loop start1 stop1 true [] t i l = (l', ev, Some (fl, ab)) -> note_names fl PStart.
+Proof.
+  induction l as [|c r IH]; intros i l' ev fl ab Hs Hrun; simpl in Hrun; [discriminate|].
+  inversion Hs as [|? ? Hc Hr]; subst.
+  destruct (start1 [i] t c) as [[c1 ev1] f1] eqn:E1. destruct f1 as [g|].
+  - inversion Hrun; subst. exists i. split; auto. simpl. intros p' ph' k Hx. eapply Hc; eauto.
+  - destruct (start_loop start1 stop1 true [] t (S i) r) as [[r' ev2] f2] eqn:E2.
+    destruct f2 as [[f2 ab2]|]; [|discriminate]. destruct ab2.
+    + inversion Hrun; subst. eapply IH; eauto.
+    + destruct (stop1 [i] t c1) as [[c2 ev3] f3]. inversion Hrun; subst. eapply IH; eauto.
+Qed.
+
+Lemma eval_loop_note eval1 due1 t : forall l i l' ev fl,
+  Forall (NP eval1 t) l -> eval_loop eval1 due1 true [] t i l = (l', ev, Some fl) -> note_names fl PEval.
+Proof.
+  induction l as [|c r IH]; intros i l' ev fl Hs Hrun; simpl in Hrun; [discriminate|].
+  inversion Hs as [|? ? Hc Hr]; subst. destruct (due1 t c).
+  - destruct (eval1 [i] t c) as [[c1 ev1] f1] eqn:E1. destruct f1 as [g|].
+    + inversion Hrun; subst. exists i. split; auto. simpl. intros p' ph' k Hx. eapply Hc; eauto.
+    + destruct (eval_loop eval1 due1 true [] t (S i) r) as [[r' ev2] f2] eqn:E2.
+      inversion Hrun; subst. eapply IH; eauto.
+  - destruct (eval_loop eval1 due1 true [] t (S i) r) as [[r' ev2] f2] eqn:E2.
+    inversion Hrun; subst. eapply IH; eauto.
+Qed.
+
+(* "graph must be started before evaluation" cannot happen: a started node has everything
+   below it started *)
+Fixpoint deep_started (n : node) : bool :=
+  match n with
+  | Plain _ st _ _ _ _ => st
+  | Nest st gs _ ch => st && gs && forallb deep_started ch
+  end.
+
+Lemma start_loop_deep start1 stop1 root gp t : forall l i l' ev,
+  Forall (fun c => forall p c' e, start1 p t c = (c', e, None) -> deep_started c' = true) l ->
+  start_loop start1 stop1 root gp t i l = (l', ev, None) -> forallb deep_started l' = true.
+Proof.
+  induction l as [|c r IH]; intros i l' ev Hs Hrun; simpl in Hrun.
+  - inversion Hrun; subst. reflexivity.
+  - inversion Hs as [|? ? Hc Hr]; subst.
+    destruct (start1 (gp ++ [i]) t c) as [[c1 ev1] f1] eqn:E1. destruct f1; [discriminate|].
+    destruct (start_loop start1 stop1 root gp t (S i) r) as [[r' ev2] f2] eqn:E2.
+    destruct f2 as [[f2 ab]|].
+    + destruct ab; [discriminate|]. destruct (stop1 (gp ++ [i]) t c1) as [[c2 ev3] f3]. discriminate.
+    + inversion Hrun; subst. simpl. rewrite (Hc _ _ _ E1), (IH _ _ _ Hr E2). reflexivity.
+Qed.
+
+Lemma start_node_deep pl : forall n p t c' ev, clean n = true -> start_node pl p t n = (c', ev, None) -> deep_started c' = true.
+Proof.
+  induction n as [per st nx cs ce cp|st gs gt ch IH] using node_ind'; intros p t c' ev Hcl Hrun; simpl in Hrun.
+  - simpl in Hcl. destruct st; [discriminate|]. destruct (pl p PStart cs); inversion Hrun; subst. reflexivity.
+  - apply clean_Nest_inv in Hcl as (-> & -> & Hcl). unfold start_graph_with in Hrun.
+    destruct (start_loop (fun q u c => start_node pl q u c) (stop_node pl) false p t 0 ch) as [[l' ev1] fr] eqn:E1.
+    destruct fr as [[f0 ab]|]; inversion Hrun; subst; clear Hrun. simpl.
+    (* the loop must see clean nodes: restrict the Forall to the members *)
+    assert (H : forallb deep_started l' = true).
+    { clear - IH Hcl E1. revert E1. generalize 0 as i. revert l' ev1.
+      induction ch as [|c r IHr]; intros l' ev1 i E1; simpl in E1.
+      - inversion E1; subst. reflexivity.
+      - simpl in Hcl. apply andb_prop in Hcl as [Hc Hr]. inversion IH as [|? ? IHc IHr']; subst.
+        destruct (start_node pl (p ++ [i]) t c) as [[c1 e1] f1] eqn:Ec. destruct f1; [discriminate|].
+        destruct (start_loop (fun q u c => start_node pl q u c) (stop_node pl) false p t (S i) r) as [[r' e2] f2] eqn:E2.
+        destruct f2 as [[f2 ab]|].
+        + destruct ab; [discriminate|]. destruct (stop_node pl (p ++ [i]) t c1) as [[c2 e3] f3]. discriminate.
+        + inversion E1; subst. simpl. rewrite (IHc _ _ _ _ Hc Ec). rewrite (IHr IHr' Hr _ _ _ E2). reflexivity. }
+    rewrite H. reflexivity.
+Qed.
+
+Lemma eval_loop_deep eval1 due1 root gp t : forall l i l' ev f,
+  Forall (fun c => deep_started c = true -> forall p c' e g, eval1 p t c = (c', e, g) ->
+                   deep_started c' = true /\ forall fl, g = Some fl -> f_exn fl <> XLogic) l ->
+  forallb deep_started l = true ->
+  eval_loop eval1 due1 root gp t i l = (l', ev, f) ->
+  forallb deep_started l' = true /\ forall fl, f = Some fl -> f_exn fl <> XLogic.
+Proof.
+  induction l as [|c r IH]; intros i l' ev f Hs Hd Hrun; simpl in Hrun.
+  - inversion Hrun; subst. split; auto. intros fl X; discriminate X.
+  - inversion Hs as [|? ? Hc Hr]; subst. simpl in Hd. apply andb_prop in Hd as [Hdc Hdr]. destruct (due1 t c).
+    + destruct (eval1 (gp ++ [i]) t c) as [[c1 ev1] f1] eqn:E1. destruct (Hc Hdc _ _ _ _ E1) as [D1 N1].
+      destruct f1 as [g|].
+      * inversion Hrun; subst. split; [simpl; rewrite D1, Hdr; reflexivity|].
+        intros fl X. inversion X; subst. unfold annotate. destruct root; simpl; apply N1; auto.
+      * destruct (eval_loop eval1 due1 root gp t (S i) r) as [[r' ev2] f2] eqn:E2.
+        inversion Hrun; subst. destruct (IH _ _ _ _ Hr Hdr E2) as [D2 N2]. split; auto.
+        simpl. rewrite D1, D2. reflexivity.
+    + destruct (eval_loop eval1 due1 root gp t (S i) r) as [[r' ev2] f2] eqn:E2.
+      inversion Hrun; subst. destruct (IH _ _ _ _ Hr Hdr E2) as [D2 N2]. split; auto.
+      simpl. rewrite Hdc, D2. reflexivity.
+Qed.
+
+Lemma eval_node_deep pl : forall n, deep_started n = true -> forall p t c' ev f, eval_node pl p t n = (c', ev, f) ->
+  deep_started c' = true /\ forall fl, f = Some fl -> f_exn fl <> XLogic.
+Proof.
+  induction n as [per st nx cs ce cp|st gs gt ch IH] using node_ind'; intros Hd p t c' ev f Hrun; simpl in Hrun, Hd.
+  - subst st. destruct (pl p PEval ce); inversion Hrun; subst; split; auto; intros fl X; inversion X; subst; discriminate.
+  - apply andb_prop in Hd as [Hd Hch]. apply andb_prop in Hd as [-> ->].
+    unfold eval_graph_with in Hrun.
+    destruct (eval_loop (fun q u c => eval_node pl q u c) due false p t 0 ch) as [[l' ev1] f1] eqn:E1.
+    inversion Hrun; subst; clear Hrun.
+    assert (Hs : Forall (fun c => deep_started c = true -> forall p c' e g, eval_node pl p t c = (c', e, g) ->
+                   deep_started c' = true /\ forall fl, g = Some fl -> f_exn fl <> XLogic) ch).
+    { eapply Forall_impl; [|exact IH]. intros c Hc Hdc q c0 e g. apply Hc; auto. }
+    destruct (eval_loop_deep _ _ _ _ _ _ _ _ _ _ Hs Hch E1) as [D N]. split; auto.
+Qed.
+
+Lemma cycles_deep pl sp e : forall fuel lo w w' ev f,
+  w_gs w = true -> forallb deep_started (w_nodes w) = true ->
+  cycles pl sp e fuel lo w = (w', ev, f) -> forall fl, f = Some fl -> f_exn fl <> XLogic.
+Proof.
+  induction fuel as [|fuel IH]; intros lo w w' ev f Hgs Hd Hrun; simpl in Hrun; [inversion Hrun; intros fl X; discriminate X|].
+  destruct (min_next_list lo (w_nodes w)); [|inversion Hrun; intros fl X; discriminate X].
+  destruct (e <=? z)%Z; [inversion Hrun; intros fl X; discriminate X|].
+  unfold eval_graph_with in Hrun. rewrite Hgs in Hrun.
+  destruct (eval_loop (eval_node pl) due true [] z 0 (w_nodes w)) as [[l' ev1] f1] eqn:E1.
+  assert (Hs : Forall (fun c => deep_started c = true -> forall p c' e0 g, eval_node pl p z c = (c', e0, g) ->
+                 deep_started c' = true /\ forall fl, g = Some fl -> f_exn fl <> XLogic) (w_nodes w)).
+  { apply Forall_forall. intros c _ Hdc q c0 e0 g. apply eval_node_deep; auto. }
+  destruct (eval_loop_deep _ _ _ _ _ _ _ _ _ _ Hs Hd E1) as [D N].
+  destruct f1 as [g|]; [inversion Hrun; subst; auto|].
+  destruct (stop_requested sp _); [inversion Hrun; intros fl X; discriminate X|].
+  destruct (cycles pl sp e fuel (z + 1)%Z (W true z l')) as [[w2 ev2] f2] eqn:E2.
+  inversion Hrun; subst. eapply IH; [| |exact E2]; auto.
+Qed.
+
+(* the failure [fl] is the first fault that fired in [ev], and its annotation names the root
+   node that fault lies under and the phase it was thrown in *)
+Definition reported (pl : plan) (ev : list event) (fl : failure) : Prop :=
+  exists p' ph k e0 rest j,
+    f_exn fl = XFault p' ph k /\ fired pl ev = e0 :: rest /\ e_path e0 = p' /\ e_k e0 = k /\
+    hook_phase (e_kind e0) = Some ph /\ pl p' ph k = true /\ f_note fl = Some (j, ph) /\ prefix [j] p'.
+
+Lemma fired_head_true pl ev e0 rest : fired pl ev = e0 :: rest -> is_fired pl e0 = true.
+Proof.
+  intro H. assert (In e0 (fired pl ev)) by (rewrite H; left; auto).
+  unfold fired in H0. apply filter_In in H0. tauto.
+Qed.
+
+Lemma mk_reported pl ph ev fl :
+  FE pl false ph [] ev (Some fl) -> note_names fl ph -> reported pl ev fl.
+Proof.
+  intros [[H _]|(p' & k & e0 & rest & H1 & H2 & H3 & H4 & H5 & H6)] [j [Hn Hp]]; [discriminate|].
+  exists p', ph, k, e0, rest, j. repeat split; auto.
+  - pose proof (fired_head_true _ _ _ _ H3) as Hf. unfold is_fired in Hf. rewrite H6, H4, H5 in Hf. exact Hf.
+  - eapply Hp; eauto.
+Qed.
+
+Lemma FE_drop_logic pl ph p ev fl :
+  FE pl true ph p ev (Some fl) -> f_exn fl <> XLogic -> FE pl false ph p ev (Some fl).
+Proof. intros [(_ & H & _)|H] Hn; [contradiction|right; exact H]. Qed.
+
+Lemma cycles_FE pl sp e : forall fuel lo w w' ev f,
+  w_gs w = true -> forallb deep_started (w_nodes w) = true ->
+  cycles pl sp e fuel lo w = (w', ev, f) ->
+  match f with None => fired pl ev = [] | Some fl => reported pl ev fl end.
+Proof.
+  induction fuel as [|fuel IH]; intros lo w w' ev f Hgs Hd Hrun.
+  { simpl in Hrun. inversion Hrun; subst. reflexivity. }
+  pose proof (cycles_deep _ _ _ _ _ _ _ _ _ Hgs Hd Hrun) as Hnl. simpl in Hrun.
+  destruct (min_next_list lo (w_nodes w)); [|inversion Hrun; subst; reflexivity].
+  destruct (e <=? z)%Z; [inversion Hrun; subst; reflexivity|].
+  unfold eval_graph_with in Hrun. rewrite Hgs in Hrun.
+  destruct (eval_loop (eval_node pl) due true [] z 0 (w_nodes w)) as [[l' ev1] f1] eqn:E1.
+  assert (F1 : FE pl true PEval [] ev1 f1).
+  { eapply eval_loop_FE; [|exact E1]. apply Forall_forall. intros c _ j c' e0 g Hc. eapply eval_node_FE; eauto. }
+  assert (Hs : Forall (fun c => deep_started c = true -> forall p c' e0 g, eval_node pl p z c = (c', e0, g) ->
+                 deep_started c' = true /\ forall fl, g = Some fl -> f_exn fl <> XLogic) (w_nodes w)).
+  { apply Forall_forall. intros c _ Hdc q c0 e0 g. apply eval_node_deep; auto. }
+  destruct (eval_loop_deep _ _ _ _ _ _ _ _ _ _ Hs Hd E1) as [D N].
+  destruct f1 as [g|].
+  - inversion Hrun; subst; clear Hrun.
+    assert (Hn : note_names g PEval).
+    { eapply eval_loop_note; [|exact E1]. apply Forall_forall. intros c _.
+      eapply (FE_NP pl true PEval). intros p c' e0 g0 Hc. eapply eval_node_FE; eauto. }
+    apply (mk_reported pl PEval); auto.
+    apply FE_drop_logic in F1; [|apply N; auto].
+    destruct F1 as [[X _]|(p' & k & e0 & rest & H1 & H2 & H3 & H4)]; [discriminate|].
+    right. exists p', k, e0, rest. split; auto. split; auto. split; auto.
+    fired_simpl. rewrite H3. rewrite app_nil_r. reflexivity.
+  - unfold FE in F1.
+    assert (Fc : fired pl (Ev BGE z [] 0 :: ev1 ++ [Ev AGE z [] 0]) = []).
+    { change (fired pl ([Ev BGE z [] 0] ++ ev1 ++ [Ev AGE z [] 0]) = []). fired_simpl. rewrite F1. reflexivity. }
+    destruct (stop_requested sp _); [inversion Hrun; subst; exact Fc|].
+    destruct (cycles pl sp e fuel (z + 1)%Z (W true z l')) as [[w2 ev2] f2] eqn:E2.
+    inversion Hrun; subst; clear Hrun.
+    pose proof (IH _ (W true z l') _ _ _ eq_refl D E2) as F2. destruct f as [fl|].
+    + destruct F2 as (p' & ph & k & e0 & rest & j & H1 & H2 & H3).
+      exists p', ph, k, e0, rest, j. split; auto. split; auto.
+      change (fired pl ((Ev BGE z [] 0 :: ev1 ++ [Ev AGE z [] 0]) ++ ev2) = e0 :: rest).
+      rewrite fired_app, Fc, H2. reflexivity.
+    + change (fired pl ((Ev BGE z [] 0 :: ev1 ++ [Ev AGE z [] 0]) ++ ev2) = []).
+      rewrite fired_app, Fc, F2. reflexivity.
+Qed.
+
+Lemma stop_world_FE pl w w' ev f : stop_world pl w = (w', ev, f) ->
+  match f with None => fired pl ev = [] | Some fl => reported pl ev fl end.
+Proof.
+  unfold stop_world, stop_graph_with. intro H. destruct (w_gs w); [|inversion H; subst; reflexivity].
+  destruct (stop_loop (stop_node pl) true [] (w_gt w) 0 (w_nodes w)) as [[l' ev1] f1] eqn:E1.
+  assert (F1 : FE pl false PStop [] ev1 f1).
+  { eapply stop_loop_FE; [|exact E1]. apply Forall_forall. intros c _ j c' e0 g Hc. eapply stop_node_FE; eauto. }
+  inversion H; subst; clear H. destruct f as [fl|].
+  - apply (mk_reported pl PStop).
+    + destruct F1 as [[X _]|(p' & k & e0 & rest & H1 & H2 & H3 & H4)]; [discriminate|].
+      right. exists p', k, e0, rest. split; auto. split; auto. split; auto.
+      change (fired pl ([Ev BPG (w_gt w) [] 0] ++ ev1 ++ opt_ev (Some fl) (Ev PGF (w_gt w) [] 0) ++ [Ev APG (w_gt w) [] 0]) = e0 :: rest).
+      fired_simpl. rewrite H3. rewrite app_nil_r. reflexivity.
+    + eapply stop_loop_note; [|exact E1]. apply Forall_forall. intros c _.
+      eapply (FE_NP pl false PStop). intros p c' e0 g0 Hc. eapply stop_node_FE; eauto.
+  - unfold FE in F1.
+    change (fired pl ([Ev BPG (w_gt w) [] 0] ++ ev1 ++ [] ++ [Ev APG (w_gt w) [] 0]) = []).
+    fired_simpl. rewrite F1. reflexivity.
+Qed.
+
+Theorem first_error pl sp cfg w w1 ev f :
+  fresh_world w -> (c_start cfg < c_end cfg)%Z -> run pl sp cfg w = (w1, ev, f) ->
+  match f with None => fired pl ev = [] | Some fl => reported pl ev fl end.
+Proof.
+  intros [Hgs Hcl] Ht Hrun. unfold run in Hrun.
+  replace (c_end cfg <=? c_start cfg)%Z with false in Hrun by (symmetry; apply Z.leb_gt; auto).
+  rewrite Hgs in Hrun. unfold start_graph_with in Hrun.
+  destruct (start_loop (start_node pl) (stop_node pl) true [] (c_start cfg) 0 (w_nodes w)) as [[l' ev0] fr] eqn:E0.
+  assert (F0 : FE pl false PStart [] ev0 (option_map fst fr)).
+  { eapply start_loop_FE; [|exact E0]. apply Forall_forall. intros c _ j c' e0 g Hc. eapply start_node_FE; eauto. }
+  destruct fr as [[f0 ab]|].
+  - inversion Hrun; subst; clear Hrun. apply (mk_reported pl PStart).
+    + simpl in F0. destruct F0 as [[X _]|(p' & k & e0 & rest & H1 & H2 & H3 & H4)]; [discriminate|].
+      right. exists p', k, e0, rest. split; auto. split; auto. split; auto.
+      change (fired pl ([Ev BSG (w_gt w) [] 0] ++ ev0 ++ [Ev SGF (c_start cfg) [] 0]) = e0 :: rest).
+      fired_simpl. rewrite H3. rewrite app_nil_r. reflexivity.
+    + eapply start_loop_note; [|exact E0]. apply Forall_forall. intros c _.
+      eapply (FE_NP pl false PStart). intros p c' e0 g0 Hc. eapply start_node_FE; eauto.
+  - simpl in F0.
+    assert (Fs : fired pl (Ev BSG (w_gt w) [] 0 :: ev0 ++ [Ev ASG (c_start cfg) [] 0]) = []).
+    { change (fired pl ([Ev BSG (w_gt w) [] 0] ++ ev0 ++ [Ev ASG (c_start cfg) [] 0]) = []). fired_simpl. rewrite F0. reflexivity. }
+    assert (Hd : forallb deep_started l' = true).
+    { eapply start_loop_deep; [|exact E0]. apply Forall_forall. intros c Hin p c' e0 Hc.
+      eapply start_node_deep; eauto. rewrite forallb_forall in Hcl. auto. }
+    destruct (cycles pl sp (c_end cfg) (c_fuel cfg) (c_start cfg) (W true (c_start cfg) l')) as [[w1' ev1] f1] eqn:E1.
+    pose proof (cycles_FE _ _ _ _ _ (W true (c_start cfg) l') _ _ _ eq_refl Hd E1) as F1.
+    destruct f1 as [fl1|].
+    + assert (R : forall ev2, reported pl ((Ev BSG (w_gt w) [] 0 :: ev0 ++ [Ev ASG (c_start cfg) [] 0]) ++ ev1 ++ ev2) fl1).
+      { intro ev2. destruct F1 as (p' & ph & k & e0 & rest & j & H1 & H2 & H3).
+        exists p', ph, k, e0, (rest ++ fired pl ev2), j. split; auto. split; auto.
+        rewrite !fired_app, Fs, H2. reflexivity. }
+      destruct (c_cleanup cfg).
+      * destruct (stop_world pl w1') as [[w2 ev2] f2]. inversion Hrun; subst. apply R.
+      * inversion Hrun; subst. specialize (R []). rewrite app_nil_r in R. exact R.
+    + destruct (stop_world pl w1') as [[w2 ev2] f2] eqn:E2. inversion Hrun; subst; clear Hrun.
+      pose proof (stop_world_FE _ _ _ _ _ E2) as F2. destruct f as [fl|].
+      * destruct F2 as (p' & ph & k & e0 & rest & j & H1 & H2 & H3).
+        exists p', ph, k, e0, rest, j. split; auto. split; auto.
+        change (fired pl ((Ev BSG (w_gt w) [] 0 :: ev0 ++ [Ev ASG (c_start cfg) [] 0]) ++ ev1 ++ ev2) = e0 :: rest).
+        rewrite !fired_app, Fs, F1, H2. reflexivity.
+      * change (fired pl ((Ev BSG (w_gt w) [] 0 :: ev0 ++ [Ev ASG (c_start cfg) [] 0]) ++ ev1 ++ ev2) = []).
+        rewrite !fired_app, Fs, F1, F2. reflexivity.
+Qed.
